@@ -417,6 +417,8 @@ class Interp:
         pos = list(args)
         bound_self = False
         if fi.cls is not None and not fi.is_staticmethod and params and fi.parent is None:
+            if self_av is None and pos and not fi.is_classmethod and not symbolic_missing:
+                self_av = pos.pop(0)  # Class.method(obj, ...): the unbound form, obj is self
             env[params[0].arg] = self_av if self_av is not None else TOP
             params = params[1:]
             defaults = defaults[1:]
@@ -1360,6 +1362,7 @@ class Interp:
     def e_Dict(self, n, frame, st):
         kw = {}
         vals = []
+        keys = []
         open_kw = None
         for k, v in zip(n.keys, n.values):
             vv = self.eval(v, frame, st)
@@ -1372,7 +1375,8 @@ class Interp:
                 kw[cval(kv)] = vv
             else:
                 open_kw = True
-        return AV(ty='dict', kw=kw, elem=join_all(vals) if vals else None, open_kw=open_kw,
+                keys.append(kv)
+        return AV(ty='dict', kw=kw, elem=join_all(vals) if vals else None, open_kw=open_kw, keyelem=join_all(keys) if (keys and not kw) else None,
                   deps=self.model.deps_of(vals, {}), fresh=True, empty_init=True if not n.keys else None)
 
     def e_Starred(self, n, frame, st):
